@@ -170,6 +170,8 @@ func (sr *seqRule) segments(root *Func) []Segment {
 			return "__iter@" + sr.c.P.pos(l.Stmt)
 		case LoopDone:
 			return "__done@" + sr.c.P.pos(l.Stmt)
+		case LoopBreak:
+			return "break"
 		}
 		if sr.visit != nil {
 			return sr.visit(fr, n)
